@@ -87,6 +87,34 @@ class P(Prop):
                 e = rng.uniform(-5, 5)
                 out.append(K.kernel_case("Segment<Poly%d>::integral" % k, [e] + cs + [x, y], cls="seg_integral"))
                 out.append(K.kernel_case("Segment<Poly%d>::indefinite" % k, [e] + cs, cls="seg_indefinite"))
+            # the knot abscissa an exact root of the INTEGRAND (small integer roots), the antiderivative not zero there
+            if k >= 1:
+                for _ in range(max(2, per // 3)):
+                    roots = [rng.randint(-6, 6) for _ in range(k)]
+                    pc = [1]
+                    for r0 in roots:
+                        pc = [(pc[i - 1] if i > 0 else 0) - r0 * (pc[i] if i < len(pc) else 0) for i in range(len(pc) + 1)]
+                    lead = rng.choice([1.0, 3.0, -2.0, 6.0])
+                    cs = [lead * float(c) for c in pc]
+                    out.append(K.kernel_case("Poly%d::integral" % k, cs + [float(rng.choice(roots)), rng.choice([5.0, -1.5, 0.0, rng.uniform(-9, 9)])], cls="integral/root_knot"))
+            # round trip through the crate's own derivative: Poly(k+1)::derivative applied to the correctly rounded quotients
+            # c_i/(i+1) (what indefinite returns - checked lane by lane above); quotients kept normal (outside the D4 class)
+            for _ in range(max(3, per // 2)):
+                st = rng.choice(["ordinary", "huge", "huge", "mixed", "ints"])
+                if st == "ordinary":
+                    cs = [K.rand_arg(rng, "finite") for _ in range(k + 1)]
+                elif st == "ints":
+                    cs = [rng.small_int(-9, 9) for _ in range(k + 1)]
+                elif st == "huge":
+                    cs = [rng.choice([1.0, -1.0]) * rng.uniform(0.5, 0.99) * 1.7976931348623157e308 for _ in range(k + 1)]
+                else:
+                    cs = [rng.choice([rng.uniform(-3, 3), rng.choice([1.0, -1.0]) * rng.uniform(0.86, 0.99) * 1.7976931348623157e308, 0.0, 2.0 ** rng.randint(-900, 900)])
+                          for _ in range(k + 1)]
+                cs = [c if (c == 0 or abs(c) >= 2.0 ** -1000) else 0.0 for c in cs]
+                q = [rng.choice([0.0, 2.5])] + [cs[i] / float(i + 1) for i in range(k + 1)]
+                c_ = K.kernel_case("Poly%d::derivative" % (k + 1), q, cls="roundtrip/" + st)
+                c_["meta"]["orig"] = [C.bits(c) for c in cs]
+                out.append(c_)
         return out
 
     def hyp_term(self, case, h):
@@ -103,6 +131,17 @@ class P(Prop):
             return "integration panicked: %s" % h.get("msg")
         ty, meth = K.split_kernel(case["name"])
         args, r = case["args"], h["r"]
+        if meth == "derivative":
+            orig = case.get("meta", {}).get("orig")
+            if not orig:
+                return None
+            for i, ob in enumerate(orig):
+                if not finite(r[i]):
+                    return "%s::derivative applied to indefinite(p) returns coefficient %d as %r; p has %r there" % (ty, i, C.fl(r[i]), C.fl(ob))
+                ulps = abs(C.ordered_key(r[i]) - C.ordered_key(ob))
+                if ulps > 1 and not (C.fl(r[i]) == 0.0 and C.fl(ob) == 0.0):
+                    return "%s::derivative applied to indefinite(p) returns coefficient %d as %r, %d ulps from %r" % (ty, i, C.fl(r[i]), ulps, C.fl(ob))
+            return None
         seg = ty.startswith("Segment<")
         if seg:
             if C.canon(r[0]) != C.canon(args[0]):
